@@ -379,7 +379,14 @@ class RadiRouter:
         route_ = self._match(route.pattern, route.filters)
         if route_:
             route = route_
-        else:
+
+        if name:
+            # check the name before anything is registered
+            registered = self.named_routes.get(name)
+            if not overwrite and registered and registered is not route:
+                raise RouteBuildError(f'Can`t register route, name `{name}` is already used')
+
+        if not route_:
             self.radidict.add(route.pattern, route, route.params_signature())
             self.routes[route.pattern] = route
 
@@ -389,9 +396,6 @@ class RadiRouter:
             route.add_method(methods, handler, meta, params)
 
         if name:
-            registered = self.named_routes.get(name)
-            if not overwrite and registered and registered is not route:
-                raise RouteBuildError(f'Can`t register route, name `{name}` is already used')
             self.named_routes[name] = route
         return route
 
